@@ -592,3 +592,38 @@ Definition wresults (w : wscript) : list (Z * Z) :=
   (match wend w with WRet r e => [(r, e)] | WPanic _ => [] end) ++
   (if existsb (fun a => match a with WCheck => true | _ => false end) (wsteps w)
    then [wbail w] else []).
+
+(* ------------------------------------------------------------------ *)
+(* several calls through ONE interceptor instance / one package          *)
+(* UnaryTimeoutInterceptor's closure holds only the immutable per-method map and
+   fx.DoWithTimeout has no instance: context, channels, mutex and result variables are
+   locals of each call.  The system state is a list of per-call components sharing
+   nothing; an event names the call whose thread moves.  The work of a call that
+   timed out (it ignored its context) is an H thread of its own component that
+   returns or panics later, while other calls are in flight. *)
+
+Definition wminit (ws : list wscript) : list wstate := map winit ws.
+
+Definition wmstepT (ss : list wstate) (e : mev) : list wstate :=
+  upd_nth (fst e) (fun s => wstepT s (snd e)) ss.
+
+Definition wmrun (ss : list wstate) (sched : list mev) : list wstate := fold_left wmstepT sched ss.
+
+Fixpoint wmrun_strict (ss : list wstate) (sched : list mev)
+  : option (list wstate * list (nat * ares)) :=
+  match sched with
+  | [] => Some (ss, [])
+  | (i, e) :: r =>
+    match nth_error ss i with
+    | None => None
+    | Some s =>
+      match wstep s e with
+      | None => None
+      | Some (s', o) =>
+        match wmrun_strict (upd_nth i (fun _ => s') ss) r with
+        | None => None
+        | Some (ss', os) => Some (ss', match e with EH => (i, o) :: os | _ => os end)
+        end
+      end
+    end
+  end.
